@@ -152,14 +152,27 @@ func runC17(bc *BCase) (*CaseStats, error) {
 			}
 		}
 		ti := TI{N: 6}
-		a, err := atree.ByteSliceToByteArray[Byte](e.St, addr, ti, data, bc.Est)
+		wide := bc.Seed%3 == 0 // every third case: the byte type whose tag head is 3 bytes long
+		var a *atree.Array
+		var err error
+		if wide {
+			a, err = atree.ByteSliceToByteArray[ByteW](e.St, addr, ti, data, bc.Est)
+			st.label("wide_byte_type")
+		} else {
+			a, err = atree.ByteSliceToByteArray[Byte](e.St, addr, ti, data, bc.Est)
+		}
 		if err != nil {
 			return st, fmt.Errorf("ByteSliceToByteArray failed for %d bytes: %v", len(data), err)
 		}
 		node := &Node{ID: e.nextNode, Addr: addr, TI: ti, HA: a, Root: a.SlabID(), VID: a.ValueID()}
 		e.nextNode++
 		// the model uses U64-free byte values: compare through the conversion API and Get
-		back, err := atree.ByteArrayToByteSlice[Byte](a)
+		var back []byte
+		if wide {
+			back, err = atree.ByteArrayToByteSlice[ByteW](a)
+		} else {
+			back, err = atree.ByteArrayToByteSlice[Byte](a)
+		}
 		if err != nil {
 			return st, fmt.Errorf("ByteArrayToByteSlice failed: %v", err)
 		}
@@ -174,7 +187,11 @@ func runC17(bc *BCase) (*CaseStats, error) {
 			if err != nil {
 				return st, fmt.Errorf("Get(%d) on a byte array failed: %v", i, err)
 			}
-			if b, ok := v.(Byte); !ok || byte(b) != data[i] {
+			if wide {
+				if b, ok := v.(ByteW); !ok || byte(b) != data[i] {
+					return st, fmt.Errorf("byte array element %d is %v, expected %d", i, v, data[i])
+				}
+			} else if b, ok := v.(Byte); !ok || byte(b) != data[i] {
 				return st, fmt.Errorf("byte array element %d is %v, expected %d", i, v, data[i])
 			}
 		}
@@ -224,7 +241,12 @@ func runC17(bc *BCase) (*CaseStats, error) {
 		for i := range data {
 			data[i] ^= 0xff
 		}
-		back2, _ := atree.ByteArrayToByteSlice[Byte](a)
+		var back2 []byte
+		if wide {
+			back2, _ = atree.ByteArrayToByteSlice[ByteW](a)
+		} else {
+			back2, _ = atree.ByteArrayToByteSlice[Byte](a)
+		}
 		if string(back2) != string(back) {
 			return st, fmt.Errorf("byte array shares memory with the source slice")
 		}
